@@ -1,9 +1,149 @@
-import DryocVerif.Model.Poly1305
-import DryocVerif.Spec.Poly1305
+import DryocVerif.Proofs.Poly1305Main
+import DryocVerif.Model.Utils
+/-
+C07 — hash, MAC and core primitives equal their specifications on every input.
+Property theorems only; helper lemmas live in `DryocVerif/Proofs`.
+-/
 namespace DryocVerif.Properties.C07
 open DryocVerif
+open DryocVerif.Model.Poly1305 (U64 M44 M42)
 
-/-- placeholder while the proofs are being ported; replaced below -/
-theorem le_nil : le [] = 0 := rfl
+/-! ### Poly1305 (`crypto_onetimeauth`) -/
+
+/-- The 44/44/42-bit limb model of `poly1305_soft.rs` computes RFC 8439 Poly1305 for **every**
+32-byte key and **every** message of every length — including every carry-propagation corner. -/
+theorem poly1305_model_eq_spec (key msg : Bytes) (hk : key.length = 32) :
+    Model.Poly1305.mac key msg = Spec.Poly1305.mac key msg :=
+  Proofs.Poly1305.mac_model_eq_spec key msg hk
+
+/-- Every checked `u64`/`u128` operation in one block step stays in range (no overflow panic),
+for every clamped `r`, every reachable accumulator and every block, full or final. -/
+theorem poly1305_block_no_overflow (r h : Model.Poly1305.Limbs) (hibit : Nat) (m : Bytes)
+    (hr : Proofs.Poly1305.RInv r) (hh : Proofs.Poly1305.Inv h) (hm : m.length = 16) (hhi : hibit = 0 ∨ hibit = 2^40) :
+    let s1 := r.l1 * 20
+    let s2 := r.l2 * 20
+    let t0 := le (m.take 8)
+    let t1 := le ((m.drop 8).take 8)
+    let H0 := (h.l0 + (t0 &&& M44)) % U64
+    let H1 := (h.l1 + (((t0 >>> 44) ||| ((t1 <<< 20) % U64)) &&& M44)) % U64
+    let H2 := (h.l2 + (((t1 >>> 24) &&& M42) ||| hibit)) % U64
+    let d0 := H0 * r.l0 + H1 * s2 + H2 * s1
+    let d1 := H0 * r.l1 + H1 * r.l0 + H2 * s2
+    let d2 := H0 * r.l2 + H1 * r.l1 + H2 * r.l0
+    let c0 := (d0 >>> 44) % U64
+    let k0 := (d0 % U64) &&& M44
+    let d1' := d1 + c0
+    let c1 := (d1' >>> 44) % U64
+    let k1 := (d1' % U64) &&& M44
+    let d2' := d2 + c1
+    let c2 := (d2' >>> 42) % U64
+    let k0' := k0 + c2 * 5
+    let c3 := k0' >>> 44
+    s1 < 2^64 ∧ s2 < 2^64 ∧
+    H0 * r.l0 < 2^128 ∧ H1 * s2 < 2^128 ∧ H2 * s1 < 2^128 ∧
+    H0 * r.l0 + H1 * s2 < 2^128 ∧ d0 < 2^128 ∧
+    H0 * r.l1 < 2^128 ∧ H1 * r.l0 < 2^128 ∧ H2 * s2 < 2^128 ∧
+    H0 * r.l1 + H1 * r.l0 < 2^128 ∧ d1 < 2^128 ∧
+    H0 * r.l2 < 2^128 ∧ H1 * r.l1 < 2^128 ∧ H2 * r.l0 < 2^128 ∧
+    H0 * r.l2 + H1 * r.l1 < 2^128 ∧ d2 < 2^128 ∧
+    d1' < 2^128 ∧ d2' < 2^128 ∧
+    c2 * 5 < 2^64 ∧ k0' < 2^64 ∧ k1 + c3 < 2^64 :=
+  Proofs.Poly1305.blockStep_no_overflow r h hibit m hr hh hm hhi
+
+/-- … and the invariant the previous theorem needs holds after any number of blocks. -/
+theorem poly1305_blocks_inv (r : Model.Poly1305.Limbs) (hr : Proofs.Poly1305.RInv r) (bs : List Bytes)
+    (h : Model.Poly1305.Limbs) (hh : Proofs.Poly1305.Inv h) (hb : ∀ b ∈ bs, b.length = 16) :
+    Proofs.Poly1305.Inv (bs.foldl (Model.Poly1305.blockStep r (2^40)) h) :=
+  Proofs.Poly1305.blocks_inv r hr bs h hh hb
+
+/-- The checked additions of the two final carry passes stay in range. -/
+theorem poly1305_finish_no_overflow (h : Model.Poly1305.Limbs) (hh : Proofs.Poly1305.Inv h) :
+    let h0 := h.l0
+    let h1 := h.l1
+    let h2 := h.l2
+    -- first pass
+    let c := h1 >>> 44
+    let h1 := h1 &&& M44
+    let h2a := h2 + c
+    let c := h2a >>> 42
+    let h2 := h2a &&& M42
+    let m1 := c * 5
+    let h0a := h0 + m1
+    let c := h0a >>> 44
+    let h0 := h0a &&& M44
+    let h1a := h1 + c
+    -- second pass
+    let c := h1a >>> 44
+    let h1 := h1a &&& M44
+    let h2b := h2 + c
+    let c := h2b >>> 42
+    let h2 := h2b &&& M42
+    let m2 := c * 5
+    let h0b := h0 + m2
+    let c := h0b >>> 44
+    let _h0 := h0b &&& M44
+    let h1b := h1 + c
+    let _h2 := h2
+    h2a < 2^64 ∧ m1 < 2^64 ∧ h0a < 2^64 ∧ h1a < 2^64 ∧
+    h2b < 2^64 ∧ m2 < 2^64 ∧ h0b < 2^64 ∧ h1b < 2^64 :=
+  Proofs.Poly1305.finish_no_overflow h hh
+
+/-- verify accepts exactly the correct authenticator -/
+theorem poly1305_verify_ok_iff (key msg tag : Bytes) (hk : key.length = 32) :
+    (tag = Model.Poly1305.mac key msg) ↔ tag = Spec.Poly1305.mac key msg := by
+  rw [poly1305_model_eq_spec key msg hk]
+
+/-- non-vacuity: the hypotheses are met by a concrete state -/
+example : Proofs.Poly1305.Inv ⟨2^44 - 1, 2^45 - 1, 2^42 - 1⟩ ∧ Proofs.Poly1305.RInv ⟨0xffc0fffffff, 0xfffffc0ffff, 0x00ffffffc0f⟩ := by
+  unfold Proofs.Poly1305.Inv Proofs.Poly1305.RInv; decide
+
+/-! ### little-endian increment (`increment_bytes` / `sodium_increment`) -/
+
+theorem mod_mul_aux (r x M : Nat) (hr : r < 256) (hM : 0 < M) :
+    (r + 256 * x) % (256 * M) = r + 256 * (x % M) := by
+  have h := Nat.div_add_mod x M
+  have hlt : x % M < M := Nat.mod_lt _ hM
+  have e : r + 256 * x = (r + 256 * (x % M)) + (256 * M) * (x / M) := by
+    conv => lhs; rw [← h]
+    rw [Nat.mul_add, Nat.mul_assoc]; omega
+  rw [e, Nat.add_mul_mod_self_left]
+  apply Nat.mod_eq_of_lt
+  have : 256 * (x % M) + 256 ≤ 256 * M := by
+    have := Nat.mul_le_mul_left 256 (Nat.succ_le_of_lt hlt)
+    rw [Nat.mul_succ] at this; exact this
+  omega
+
+theorem incrementGo_spec (bs : Bytes) (c : Nat) (hc : c ≤ 1) :
+    le (Model.Utils.incrementGo c bs) = (le bs + c) % 256 ^ bs.length := by
+  induction bs generalizing c with
+  | nil => simp [Model.Utils.incrementGo, le, Nat.mod_one]
+  | cons b bs ih =>
+    have hb := b.toNat_lt
+    simp only [Model.Utils.incrementGo, le, List.length_cons]
+    have h1 : (c + b.toNat) >>> 8 ≤ 1 := by
+      rw [Nat.shiftRight_eq_div_pow]; omega
+    rw [ih _ h1]
+    have h2 : (c + b.toNat) &&& 0xff = (c + b.toNat) % 256 := Nat.and_two_pow_sub_one_eq_mod _ 8
+    rw [h2]
+    have hs : (c + b.toNat) >>> 8 = (c + b.toNat) / 256 := by rw [Nat.shiftRight_eq_div_pow]
+    rw [hs]
+    have h3 : (UInt8.ofNat ((c + b.toNat) % 256)).toNat = (c + b.toNat) % 256 := by
+      simp [UInt8.toNat_ofNat']
+    rw [h3]
+    have hp : 256 ^ (bs.length + 1) = 256 * 256 ^ bs.length := by rw [Nat.pow_succ, Nat.mul_comm]
+    rw [hp]
+    have hM : 0 < 256 ^ bs.length := Nat.pow_pos (by decide)
+    rw [← mod_mul_aux _ _ _ (Nat.mod_lt _ (by decide)) hM]
+    congr 1
+    omega
+
+theorem increment_spec (bs : Bytes) :
+    le (Model.Utils.incrementBytes bs) = (le bs + 1) % 256 ^ bs.length :=
+  incrementGo_spec bs 1 (Nat.le_refl 1)
+
+theorem incrementGo_length (bs : Bytes) (c : Nat) : (Model.Utils.incrementGo c bs).length = bs.length := by
+  induction bs generalizing c with
+  | nil => rfl
+  | cons b bs ih => simp [Model.Utils.incrementGo, ih]
 
 end DryocVerif.Properties.C07
